@@ -5,42 +5,34 @@ From Scalibr Require Import Sched.RaceModel Sched.Generated_WalkAccesses.
 Import ListNotations.
 Open Scope string_scope.
 
-(* the status ticker goroutine (printStatus) reads the counters and the current path that the walk
-   (handleFile / runExtractor) writes, with no lock and no ordering edge *)
-Lemma walk_status_ticker_race_refuted_lemma :
-  race_free walk_accesses walk_calls "RunFS" = false /\
-  racy_fields walk_fields walk_accesses walk_calls "RunFS" = ["inodesVisited"; "extractCalls"; "currentPath"] /\
-  racy_ticker_fns walk_accesses walk_calls "RunFS" = ["printStatus"] /\
-  racy_main_fns walk_accesses walk_calls "RunFS" = ["handleFile"; "runExtractor"].
+(* every conflicting pair of accesses to the walk context by the walking goroutine and the status ticker
+   goroutine is ordered by the `go` statement or made under a common mutex *)
+Lemma walk_context_race_free_lemma :
+  race_free walk_accesses walk_calls "RunFS" = true /\
+  racy_fields walk_fields walk_accesses walk_calls "RunFS" = [].
+Proof. vm_compute. split; reflexivity. Qed.
+
+(* the ticker goroutine does touch shared fields that the walk writes (the theorem is not about an empty
+   set of pairs): conflicting pairs exist, all of them protected *)
+Definition conflicting_pairs : list (event * event) :=
+  flat_map (fun a => map (fun b => (a, b)) (filter (fun b => conflict a b && negb (ordered a))
+                                                   (ticker_events walk_accesses walk_calls "RunFS")))
+           (main_events walk_accesses walk_calls "RunFS").
+
+Lemma walk_conflicts_exist_and_are_locked_lemma :
+  conflicting_pairs <> [] /\ forallb (fun p => share_lock (fst p) (snd p)) conflicting_pairs = true.
+Proof. split; [vm_compute; discriminate | vm_compute; reflexivity]. Qed.
+
+(* regression model of the defect that was fixed in /repo (fix: guard the walk counters ... with a mutex):
+   the same table with the mutex removed from every lock set races on exactly the three status fields,
+   printStatus against handleFile / runExtractor *)
+Definition without_locks (a : access) : access :=
+  mkacc (a_fn a) (a_field a) (a_kind a) (a_region a) [] (a_line a).
+
+Lemma race_returns_without_status_lock_lemma :
+  race_free (map without_locks walk_accesses) walk_calls "RunFS" = false /\
+  racy_fields walk_fields (map without_locks walk_accesses) walk_calls "RunFS" =
+    ["inodesVisited"; "extractCalls"; "currentPath"] /\
+  racy_ticker_fns (map without_locks walk_accesses) walk_calls "RunFS" = ["printStatus"] /\
+  racy_main_fns (map without_locks walk_accesses) walk_calls "RunFS" = ["handleFile"; "runExtractor"].
 Proof. vm_compute. repeat split; reflexivity. Qed.
-
-(* every other field of the walk context is race free: all conflicting pairs on it are ordered or locked *)
-Lemma walk_other_fields_race_free_lemma :
-  forall f, In f walk_fields -> f <> "inodesVisited" -> f <> "extractCalls" -> f <> "currentPath" ->
-    existsb (fun p => String.eqb f (a_field (ev_acc (fst p)))) (races walk_accesses walk_calls "RunFS") = false.
-Proof.
-  intros f Hin H1 H2 H3.
-  assert (E : forallb (fun f => String.eqb f "inodesVisited" || String.eqb f "extractCalls" || String.eqb f "currentPath" ||
-                                negb (existsb (fun p => String.eqb f (a_field (ev_acc (fst p))))
-                                              (races walk_accesses walk_calls "RunFS"))) walk_fields = true)
-    by (vm_compute; reflexivity).
-  rewrite forallb_forall in E. specialize (E f Hin).
-  repeat (apply orb_true_iff in E; destruct E as [E|E]).
-  - apply String.eqb_eq in E. contradiction.
-  - apply String.eqb_eq in E. contradiction.
-  - apply String.eqb_eq in E. contradiction.
-  - apply negb_true_iff in E. exact E.
-Qed.
-
-(* the proposed repair (fixes-proposed/C16-walk-status-race.diff): the same table with the counter / path
-   accesses of handleFile, runExtractor and printStatus made under a mutex wc.mu.  race_free can hold. *)
-Definition with_status_lock (a : access) : access :=
-  if (String.eqb (a_field a) "inodesVisited" || String.eqb (a_field a) "extractCalls" || String.eqb (a_field a) "currentPath")
-     && (String.eqb (a_fn a) "handleFile" || String.eqb (a_fn a) "runExtractor" || String.eqb (a_fn a) "printStatus")
-     && negb (String.eqb (a_fn a) "handleFile" && String.eqb (a_field a) "inodesVisited" &&
-              match a_kind a with AR => true | AW => false end)
-  then mkacc (a_fn a) (a_field a) (a_kind a) (a_region a) ("wc.mu" :: a_locks a) (a_line a) else a.
-
-Lemma race_free_with_status_lock_lemma :
-  race_free (map with_status_lock walk_accesses) walk_calls "RunFS" = true.
-Proof. vm_compute. reflexivity. Qed.
